@@ -131,11 +131,15 @@ def r2_r4(ctx):
                 probs.append("guards are not evaluated in ascending order")
             if side == "signed" and "num::abs(" in c.lhs:
                 # a signed type holds [-(X_MAX + 1), X_MAX]: the lower bound enters the amplitude as |min + 1|
-                import re as _re
-                m = _re.search(r"num::abs\((.*?)\)[,)]", c.lhs)
-                if not m or "Add 1" not in m.group(1):
-                    probs.append("the amplitude of the lower bound is `%s`, not |min + 1|: -(X_MAX + 1) would be pushed to the next "
-                                 "wider type (and i64::MIN overflows abs)" % (m.group(0) if m else c.lhs)[:80])
+                i0 = c.lhs.index("num::abs(") + len("num::abs(")
+                depth, i1 = 1, i0
+                while i1 < len(c.lhs) and depth:
+                    depth += {"(": 1, ")": -1}.get(c.lhs[i1], 0)
+                    i1 += 1
+                arg = c.lhs[i0:i1 - 1]
+                if "Add 1" not in arg:
+                    probs.append("the amplitude of the lower bound is |%s|, not |min + 1|: -(X_MAX + 1) would be pushed to the next "
+                                 "wider type (and i64::MIN overflows abs)" % arg[:80])
             if probs:
                 ctx.fail(r2, key, "; ".join(probs), c.loc, detail)
             else:
